@@ -8,6 +8,9 @@ from .solutions import solution_rules_c02
 
 
 def run(rep, prog, tier):
+    from .hidden import no_hidden_state
+    rep.rule('R02.state', 'no hidden state in the anchored modules: no function writes a module-level object, no caching decorator / cached property')
+    no_hidden_state(rep, 'R02.state', prog, ['Circuit/circuit.py', 'Circuit/transformers.py', 'Circuit/solution.py', 'Circuit/components.py', 'Network/elements.py'])
     rep.rule('R02.immittance', 'per kind reached from transformers[k]: R, R+jX, jwC (admittance form), jwL (impedance form), P/V_ref^2, G, G+jB')
     rep.rule('R02.phasor', 'active dc/ac source carries A(cos phi + j sin phi) (phi=0 for dc) with internal R / G; complex sources carry re + j im')
     rep.rule('R02.gate', 'a translator gates iff its kind carries a frequency; inactive voltage kind -> short, current kind -> open, exactly under |w - w_s| > w_resolution')
